@@ -5,7 +5,10 @@ Abstract mode (DESIGN.md 2.4): objects are opaque, attribute reads are uninterpr
 return fresh values / may raise / havoc what they can reach; designated effect calls are recorded in a trace and
 the obligations below are assertions over that trace and the path condition.
 """
-import z3
+try:
+    import z3
+except Exception:  # concrete-only interpreter
+    z3 = None
 
 from pyvc.contract import Contract, ForAll, LoopSpec, RaiseSpec, contract
 from pyvc.values import And, Implies, Not, Or, L, ite, nth, eq, SBool, SInt, SOpq, truthy
@@ -75,6 +78,8 @@ class ExtractSingle(Contract):
     props = ("C03", "C04", "C09", "C18")
     abstract = True
     self_class = ("py7zr.py7zr", "Worker")
+    # Worker.decompress is used here through the facts stated in `assumptions` (hook on its call), its contract is in wdecompress.py
+    opaque = ("py7zr:Worker.decompress",)
     pure = ("get", "is_path_valid", "joinpath", "pathlib.Path", "str", "decode")
     stable_attrs = STABLE
     track_raises = False
@@ -253,6 +258,7 @@ class WorkerCheck(Contract):
     props = ("C04", "C09")
     abstract = True
     self_class = ("py7zr.py7zr", "Worker")
+    opaque = ("py7zr:Worker.decompress",)
     stable_attrs = STABLE
     pure = ("str",)
 
